@@ -133,7 +133,7 @@ def stale_apply_line(lines, tid, upto):
     # k = the Open line of the behaviour
     for j in range(k + 1, upto + 1):
         ev, prev = lines[j], lines[j - 1]
-        if ev['a'] == 'ReportApply':
+        if ev['a'] in ('ReportApply', 'ISRApply'):
             r = prev['st']['pend'][ev['args']['i'] - 1]
             stale = r['l'] != prev['st']['leader'] or r['e'] != prev['st']['lepoch'] or not prev['st']['exists']
             if stale and ev['obs']['err'] != 'stale':
@@ -181,6 +181,10 @@ def label_step(lab):
         return {'a': 'ReportCheck', 'w': args[0], 'ps': args[1]}
     if name == 'MCReportApply':
         return {'a': 'ReportApply', 'i': args[0], 'pref': args[1]}
+    if name == 'MCISRCheck':
+        return {'a': 'ISRCheck', 'k': args[0], 'r': args[1], 'ps': args[2]}
+    if name == 'MCISRApply':
+        return {'a': 'ISRApply', 'i': args[0]}
     if name == 'MCShrink':
         return {'a': 'Shrink', 'r': args[0], 'ps': args[1]}
     if name == 'MCExpand':
@@ -235,6 +239,16 @@ def run(rep, tier, seed, replay):
     if cx:
         directed.append((isr, cx))
         directed.append((isr, cx + [{'a': 'Report', 'w': 'r2', 'ps': 'cur', 'pref': 'none'}]))
+    for cfg in ('MC_Failover_race_taint_isr.cfg', 'MC_Failover_race_isr_leader.cfg'):
+        r5 = core.tlc_check('MC_Failover.tla', cfg, timeout=600, workers=1)
+        rep.cov['design_checks'].append({'config': cfg + ' (defective variant, expected to fail)',
+                                         'violated': r5['violated'], 'distinct_states': r5['distinct'],
+                                         'states_generated': r5['generated'], 'depth': r5['depth'],
+                                         'complete': r5['complete'], 'wall_s': round(r5['wall'], 1)})
+        isr, cx = counterexample(r5['out'])
+        if not cx:
+            raise core.Inconclusive('no counterexample from the defective variant %s: %s' % (cfg, r5['out'][-1500:]))
+        directed.append((isr, cx))
     rsims = core.tlc_simulate('MC_Failover.tla', 'Sim_Failover_race.cfg', 300 if quick else 5000, 10 if quick else 14,
                               seed + 1000)
     raceb = []
